@@ -629,6 +629,9 @@ func first(a, _ []byte) []byte { return a }
 //@ spec minLen_{alpha,unsigned,signed,float}() = 1
 //@ spec minLen_compound() = 0
 //@ spec LeafOK_{alpha,unsigned,signed,float,compound}(o) = as($KINDLeafNode, o).key.obj != nil && allocated(as($KINDLeafNode, o).key.obj) && 0 <= as($KINDLeafNode, o).key.idx && as($KINDLeafNode, o).key.idx + as($KINDLeafNode, o).len <= blen(as($KINDLeafNode, o).key.obj) && as($KINDLeafNode, o).len >= minLen_$KIND() && atype(as($KINDLeafNode, o).key.obj) == 1000
+// inlineMatch: the bytes of the key at depth.. agree with the inline part (at most 10 bytes) of the
+// compressed path of inner node o - what the optimistic descent can check without a leaf
+//@ spec inlineMatch(o, key, depth) = forall(i, 0, 10, implies(i < as(node, o).prefixLen, depth + i < len(key) && as(node, o).prefix[i] == key[depth + i]))
 // leafKeyIs: the (transformed) key stored in leaf o is exactly the byte string s
 //@ spec leafKeyIs_{alpha,unsigned,signed,float,compound}(o, s) = bytesEq(mkslice(as($KINDLeafNode, o).key.obj, as($KINDLeafNode, o).key.idx, as($KINDLeafNode, o).len), s)
 //@ spec leafKeyIs_collation(o, s) = bytesEq(mkslice(as(collateLeafNode, o).key.obj, as(collateLeafNode, o).key.idx, as(collateLeafNode, o).keyLen), s)
@@ -676,6 +679,7 @@ func first(a, _ []byte) []byte { return a }
 //@   opt extent on
 //@   requires WF1in_alpha(t)
 //@   ensures[found_sound] implies(result1, n.pointer != nil && n.tag == 4 && leafKeyIs_alpha(n.pointer, keyS) && result0 == as(alphaLeafNode, n.pointer).value)
+//@   ensures[not_found_justified] implies(!result1, n.pointer == nil || (n.tag == 4 && !leafKeyIs_alpha(n.pointer, keyS)) || (n.tag != 4 && (!inlineMatch(n.pointer, keyS, depth) || depth >= len(keyS) || lookP(n, keyS[depth]) == nil)))
 //@   ensures[pure] frame()
 //@   ensures[arg_bytes_unchanged] sameBytes(key, 0, blen(key.obj))
 //@   loop 1 (depth)
@@ -691,6 +695,7 @@ func first(a, _ []byte) []byte { return a }
 //@   opt extent on
 //@   requires WF1in_$KIND(t)
 //@   ensures[found_sound] implies(result1, n.pointer != nil && n.tag == 4 && leafKeyIs_$KIND(n.pointer, keyS) && result0 == as($KINDLeafNode, n.pointer).value)
+//@   ensures[not_found_justified] implies(!result1, n.pointer == nil || (n.tag == 4 && !leafKeyIs_$KIND(n.pointer, keyS)) || (n.tag != 4 && (!inlineMatch(n.pointer, keyS, depth) || depth >= len(keyS) || lookP(n, keyS[depth]) == nil)))
 //@   ensures[pure] frame()
 //@   loop 1 (depth)
 //@     step_ensures[descent_rule] n.pointer == lookP(prev(n), keyS[prev(depth) + as(node, prev(n).pointer).prefixLen]) && n.tag == lookT(prev(n), keyS[prev(depth) + as(node, prev(n).pointer).prefixLen]) && depth == prev(depth) + as(node, prev(n).pointer).prefixLen + 1
@@ -908,6 +913,7 @@ func first(a, _ []byte) []byte { return a }
 //@   opt extent on
 //@   requires WF1in_collation(t)
 //@   ensures[found_sound] implies(result1, n.pointer != nil && n.tag == 4 && leafKeyIs_collation(n.pointer, keyS) && result0 == as(collateLeafNode, n.pointer).value)
+//@   ensures[not_found_justified] implies(!result1, n.pointer == nil || (n.tag == 4 && !leafKeyIs_collation(n.pointer, keyS)) || (n.tag != 4 && (!inlineMatch(n.pointer, colKey, depth) || depth >= len(colKey) || lookP(n, colKey[depth]) == nil)))
 //@   ensures[scratch_bounded] scratchLen(t.cok.buf) < 2147483648
 //@   ensures[pure] frameExcept("collationSortedTree.cok.src", "CollationOrderKey.src")
 //@   loop 1 (depth)
